@@ -36,6 +36,13 @@ type Task struct {
 	// NoYield > 0 suppresses parking of this task (used while it holds a
 	// lock that cannot be parked with).
 	NoYield int
+
+	// rawArg is the argument as the task passed it; it is canonicalised by
+	// the scheduler at the next decision point (needCanon), when every
+	// goroutine is blocked, so that names are not handed out in the order
+	// in which goroutines woken in the same step happen to arrive
+	rawArg    string
+	needCanon bool
 }
 
 // Action is something the scheduler can choose to do next.
@@ -62,8 +69,13 @@ type Sim struct {
 	// Enabled tells which optional yield points park in this run. A nil map
 	// enables all points.
 	Optional map[string]bool
-	// Canon canonicalises hook arguments (e.g. random inbox names).
-	Canon func(string) string
+	// Canon canonicalises hook arguments (e.g. random inbox names); it may
+	// hand out a new canonical name. CanonPeek, when set, only applies the
+	// names handed out so far and masks the rest: Yield then uses CanonPeek
+	// and the scheduler calls Canon at the next decision point, in the
+	// canonical order of the parked tasks.
+	Canon     func(string) string
+	CanonPeek func(string) string
 	// Observer, when set, sees every hook call (enabled or not) on the
 	// calling goroutine before it parks.
 	Observer func(point, arg string)
@@ -115,6 +127,7 @@ var mandatory = map[string]bool{
 	"serve.wait":           true,
 	"conn.callback":        true,
 	"keylock.wake":         true,
+	"tq.wake":              true, // waiters of a full task queue, all woken by one pop
 	"updateIndex.start":    true,
 	"handleChange.afterDo": true,
 	"store.open":           true,
@@ -260,7 +273,10 @@ func (s *Sim) Yield(point, arg string) {
 		raceEnable()
 		return
 	}
-	if s.Canon != nil {
+	if s.Canon != nil && s.CanonPeek != nil {
+		t.rawArg, t.needCanon = arg, true
+		arg = s.CanonPeek(arg)
+	} else if s.Canon != nil {
 		arg = s.Canon(arg)
 	}
 	t.Point, t.Arg = point, arg
@@ -315,10 +331,41 @@ func (s *Sim) Choose(n int, what string) int {
 //go:norace
 func (s *Sim) parkedTasks() []*Task {
 	s.mu.Lock()
-	var out []*Task
+	var out, pend []*Task
 	for i := 0; i < s.ntasks; i++ {
 		if t := s.tasks[i]; t.parked && !t.done {
 			out = append(out, t)
+			if t.needCanon {
+				pend = append(pend, t)
+			}
+		}
+	}
+	if len(pend) > 0 {
+		// new canonical names in the canonical order of the tasks (the
+		// masked argument stands for names not handed out yet)
+		for _, t := range pend {
+			t.Arg = s.CanonPeek(t.rawArg)
+		}
+		sort.SliceStable(pend, func(i, j int) bool {
+			a, b := pend[i], pend[j]
+			ka, kb := a.Name, b.Name
+			if ka == "" {
+				ka = "~" + a.Role
+			}
+			if kb == "" {
+				kb = "~" + b.Role
+			}
+			if ka != kb {
+				return ka < kb
+			}
+			if a.Point != b.Point {
+				return a.Point < b.Point
+			}
+			return a.Arg < b.Arg
+		})
+		for _, t := range pend {
+			t.Arg = s.Canon(t.rawArg)
+			t.needCanon = false
 		}
 	}
 	s.mu.Unlock()
